@@ -431,12 +431,27 @@ impl WordShape {
         self.fin
     }
 }
-// @item rust/core/src/tokenization/word.rs :: defaults Word as WordShape::{len}
+// @item rust/core/src/tokenization/word.rs :: defaults Word as WordShape::{len,is_empty,is_function}
 impl WordShape {
     fn len(&self) -> (ret: usize)
     {
         let (left, right) = self.slice();
         right - left
+    }
+    fn is_empty(&self) -> (ret: bool)
+    {
+        let (left, right) = self.slice();
+        right == left
+    }
+    fn is_function(&self) -> (ret: bool)
+    {
+        match self.pos() {
+            Some(PartOfSpeech::Article) => true,
+            Some(PartOfSpeech::Preposition) => true,
+            Some(PartOfSpeech::Conjunction) => true,
+            Some(PartOfSpeech::Particle) => true,
+            _ => false,
+        }
     }
 }
 // @item rust/core/src/tokenization/text.rs :: impl TextOwn::{to_ref}
